@@ -106,11 +106,28 @@ class TapSock(W.FakeSock):
     W.FakeSock.close(self)
 
 
+_SEQ = [0]
+
+
+class _Events(list):
+  """Event list that remembers when (in a case-wide order) its last entry was made."""
+
+  def __init__(self, tap):
+    list.__init__(self)
+    self.tap = tap
+
+  def append(self, e):
+    _SEQ[0] += 1
+    self.tap.seq = _SEQ[0]
+    list.append(self, e)
+
+
 class _Tap(object):
   """Event log of one connection: ("D", abs_start, abs_end|None, exc|None), ("X", abs_start, sig), ("C",)."""
 
   def __init__(self):
-    self.events = []
+    self.seq = 0
+    self.events = _Events(self)
     self.pending = None           # (abs_start, abs_end, obj) of a decode not yet dispatched
     self.real_unpackers = None
     self.real_handlers = None
@@ -456,8 +473,14 @@ def run_case(case):
       return out
     sib_expect.append(ex)
   intact_expect = [(s, d, C2.expect(d)) for s, d in intact]
+  second = case.get("victim2")
+  if second:
+    wstream, wintact, wfirst_bad = victim_stream(second)
+    wintact_expect = [(s, d, C2.expect(d)) for s, d in wintact]
+    out.label("victims:2")
 
   world = W.World()
+  _SEQ[0] = 0
   S = _S
   B = S["budget"]
   S["ctl_class"].ID = 0
@@ -468,6 +491,8 @@ def run_case(case):
     vpos = case.get("vpos", 0) % n
     roles = ["s%d" % i for i in range(len(sib_msgs))]
     roles.insert(vpos, "v")
+    if second:
+      roles.insert(case.get("wpos", 0) % (len(roles) + 1), "w")
     conns = {}
     if side == "ctl":
       loop = L.ControllerLoop(world, connection_class=S["ctl_class"], budget=(B, _limit(0)))
@@ -492,6 +517,11 @@ def run_case(case):
     v = conns["v"]
     v.stream = vstream
     v.chunks = _chunks(vstream, case.get("vcuts") or [])
+    if second:
+      w = conns["w"]
+      w.stream = wstream
+      # wdelay: how many rounds after the first victim's first bytes the second victim's arrive
+      w.chunks = [b""] * max(0, int(case.get("wdelay", 0))) + _chunks(wstream, case.get("wcuts") or [])
     for i, ms in enumerate(sib_msgs):
       c = conns["s%d" % i]
       c.stream = b"".join(ms)
@@ -532,7 +562,7 @@ def run_case(case):
       live = _drain(loop, conns, unit)
     if loop.alive and live:
       for role in roles:
-        if role != "v" and not conns[role].sock.closed:
+        if role.startswith("s") and not conns[role].sock.closed:
           conns[role].sock.feed(probe)
       live = _drain(loop, conns, unit)
     if not live:
@@ -548,7 +578,14 @@ def run_case(case):
       fr = min(int(faults.get("round", 0)), len(v.chunks) - 1)
       fl = sum(len(ch) for ch in v.chunks[:fr + 1])
       must_until = fl if must_until is None else min(must_until, fl)
-    _judge(out, case, side, direction, loop, conns, roles, vstream, intact_expect, must_until, sib_expect, probe)
+    victims = {"v": (v, vstream, intact_expect, must_until)}
+    if second:
+      victims["w"] = (conns["w"], wstream, wintact_expect, wfirst_bad)
+    _judge(out, case, side, direction, loop, conns, roles, victims, sib_expect, probe)
+    if second and first_bad is not None and wfirst_bad is not None:
+      # two offenders: non-trivial when their corrupted bytes are processed in the same wake-up or in successive ones
+      out.nontrivial = True
+      out.label("victims:same-round" if int(case.get("wdelay", 0)) == (bad_round or 0) else "victims:different-rounds")
     corrupted = first_bad is not None
     if corrupted:
       out.label("hdr:" + R.header_class(vstream, first_bad, direction))
@@ -586,10 +623,16 @@ def _victim_head(side, v):
   return v.handle.total_pushed - len(v.handle.receive_buf)
 
 
-def _judge(out, case, side, direction, loop, conns, roles, vstream, intact_expect, first_bad, sib_expect, probe):
-  v = conns["v"]
+def _judge(out, case, side, direction, loop, conns, roles, victims, sib_expect, probe):
+  """victims: role -> (conn, stream, intact_expect, must_until)."""
+  v, vstream = victims["v"][0], victims["v"][1]
   tap = v.tap
   cause, pos = _cause(vstream, tap, _victim_head(side, v), direction)
+  if "w" in victims and not loop.alive:
+    # blame the victim whose receiver was last active
+    w = victims["w"][0]
+    if w.tap.events and (not tap.events or w.tap.seq > tap.seq):
+      cause, pos = _cause(victims["w"][1], w.tap, _victim_head(side, w), direction)
 
   # ---- (i), (vi), (ii): the loop itself
   if loop.exceeded:
@@ -625,7 +668,15 @@ def _judge(out, case, side, direction, loop, conns, roles, vstream, intact_expec
           i, len(got), [(g[0], g[1]) for g in got], len(ex), [(g[0], g[1]) for g in ex], pos, cause),
           side=side, cause=cause, what=what)
 
-  # ---- (iv), (v): the victim
+  # ---- (iv), (v): each victim
+  for tag, (vc, vs, ie, fb) in sorted(victims.items()):
+    _judge_victim(out, side, direction, vc, vs, ie, fb, selected, tag)
+
+
+def _judge_victim(out, side, direction, v, vstream, intact_expect, first_bad, selected, tag):
+  tap = v.tap
+  cause, pos = _cause(vstream, tap, _victim_head(side, v), direction)
+  n_before = len(out.violations)
   frames, stop, why = frames_of(vstream)
   by_start = dict((f[0], f) for f in frames)
   boundaries = set(by_start)
@@ -684,7 +735,7 @@ def _judge(out, case, side, direction, loop, conns, roles, vstream, intact_expec
         out.fail("delivered-twice", "the frame at offset %d was delivered twice" % start, side=side, cause=c_here)
         break
       delivered[start] = sg
-  if out.violations:
+  if len(out.violations) > n_before:
     return
 
   # errors the victim's receiver sent back
@@ -735,7 +786,7 @@ def _judge(out, case, side, direction, loop, conns, roles, vstream, intact_expec
       outcome = "waiting"
     elif is_closed:
       outcome = "closed"
-  out.label("victim:" + outcome)
+  out.label(("victim:" if tag == "v" else "victim2:") + outcome)
 
   # intact messages before the first corruption must have been delivered, unchanged
   for s, d, ex in intact_expect:
@@ -747,6 +798,7 @@ def _judge(out, case, side, direction, loop, conns, roles, vstream, intact_expec
       out.fail("prefix-lost", "the intact message at offset %d (type %d), sent before any corruption, was %s" % (
           s, d[1], "not delivered" if s not in delivered else "delivered altered"), side=side, cause=cause)
       break
+
 
 
 # --------------------------------------------------------------------------- enumerations
@@ -917,6 +969,49 @@ def enum_faults(tier):
                        "vcuts": [cut], "faults": {"round": 0, "recv": recv, "send": send, "order": order}}
 
 
+def offenders(side):
+  """name -> corrupted item, covering the ways a receiver gets rid of a connection or survives a message."""
+  T = R
+  if side == "ctl":
+    short = {"m": _spec(T.ERROR, 8), "ops": [{"op": "len", "v": 10}]}            # unpacker raises
+    body = {"m": _spec(T.FEATURES_REPLY, 1), "ops": [{"op": "len", "v": 40}]}    # fixed part ok, port list cut
+  else:
+    short = {"m": _spec(T.FLOW_MOD, 1), "ops": [{"op": "len", "v": 16}]}
+    body = {"m": _spec(T.PACKET_OUT, 12), "ops": [{"op": "u16", "off": 14, "v": 0xfff0}]}   # actions_len beyond the message
+  return [
+    ("bad-version", {"m": _spec(T.ECHO_REQUEST, 4), "ops": [{"op": "u8", "off": 0, "v": 4}]}),
+    ("length-0", {"m": _spec(T.HELLO), "ops": [{"op": "len", "v": 0}]}),
+    ("length-5", {"m": _spec(T.ECHO_REQUEST, 4), "ops": [{"op": "len", "v": 5}]}),
+    ("unknown-type", {"m": _spec(T.ECHO_REQUEST, 4), "ops": [{"op": "u8", "off": 1, "v": 99}]}),
+    ("short-for-type", short),
+    ("body", body),
+  ]
+
+
+def enum_two_victims(tier):
+  """Two misbehaving connections: every ordered pair of offender kinds x every accept order of
+  (victim, second victim, sibling) x second victim's bytes in the same wake-up or the next."""
+  idx = 0
+  for side in ("ctl", "sw"):
+    offs = offenders(side)
+    for na, a in offs:
+      for nb, b in offs:
+        for vpos, wpos in ((0, 0), (0, 1), (0, 2), (1, 0), (1, 2), (1, 1)):
+          for wdelay in (0, 1):
+            for shape in (0, 1):
+              idx += 1
+              x, y = {"m": _valid(side, idx)}, {"m": _valid(side, idx + 3)}
+              v1 = [dict(a), x] if shape == 0 else [y, dict(a), x]
+              v2 = [dict(b), y] if shape == 0 else [x, dict(b), y]
+              sib = [[_valid(side, idx + 1), _valid(side, idx + 4), _valid(side, idx + 6)]]
+              c = {"side": side, "label": "two:%s+%s" % (na, nb), "victim": v1, "victim2": v2, "sib": sib,
+                   "vpos": vpos, "wpos": wpos, "wdelay": wdelay}
+              if shape == 1 and idx % 2:
+                # the first victim's offending message arrives in its second chunk, i.e. in the round of wdelay=1
+                c["vcuts"] = [len(victim_stream(v1[:1])[0])]
+              yield c
+
+
 # --------------------------------------------------------------------------- Hypothesis
 
 @st.composite
@@ -980,6 +1075,21 @@ def case_strategy(draw, tier):
       m.pop("ver", None)
     sib.append(ms)
   case = {"side": side, "label": "mutation", "victim": victim, "sib": sib, "vpos": draw(st.integers(0, nsib))}
+  if draw(st.integers(0, 3)) == 0:
+    name, item = draw(st.sampled_from(offenders(side)))
+    v2 = [dict(item)]
+    if draw(st.booleans()):
+      v2.insert(0, {"m": draw(C2.spec_strategy(side, small=True))})
+      v2[0]["m"].pop("ver", None)
+    if draw(st.booleans()):
+      v2.append({"m": draw(C2.spec_strategy(side, small=True))})
+      v2[-1]["m"].pop("ver", None)
+    if draw(st.integers(0, 2)) == 0:
+      ln = len(R.build(item["m"]).data)
+      v2[v2.index(item) if item in v2 else 0] = {"m": item["m"], "ops": draw(st.lists(_op(ln), min_size=1, max_size=2))}
+    case["victim2"] = v2
+    case["wpos"] = draw(st.integers(0, nsib + 1))
+    case["wdelay"] = draw(st.integers(0, 2))
   if draw(st.booleans()):
     total = len(victim_stream(victim)[0])
     if total > 1:
@@ -1000,6 +1110,7 @@ def plan(tier):
     Enum("embedded", lambda: enum_embedded(tier), shards=16),
     Enum("truncation", lambda: enum_trunc(tier), shards=16),
     Enum("faults", lambda: enum_faults(tier), shards=16),
+    Enum("two-victims", lambda: enum_two_victims(tier), shards=16),
     Hyp("mutation", lambda: case_strategy(tier), examples=n, shards=16),
     # coverage-guided (atheris/libFuzzer) campaigns on both loops; skipped with a note if atheris is missing
     Custom("atheris", c10_ofstream.driver(3000 if tier == "quick" else 130000), shards=2 if tier == "quick" else 16),
